@@ -45,7 +45,7 @@ COMPONENTS = {"real": ["UDPEndpoint.datagram_received", "Endpoint.notify_listene
                        "Serializer and all registered Packers", "Network.load_snapshot"],
               "stub": ["UDP/IP (SimNet)", "wall clock", "OS RNG"]}
 ASSUMPTIONS = ["the native ipv8_rust_tunnels.Endpoint is not covered (PythonCryptoEndpoint is what runs)"]
-REACH = ["inj:prefix", "inj:msgid", "inj:short", "inj:lenrewrite", "inj:lenbump", "inj:cell", "inj:keyed_cell", "inj:quit", "inj:relay_half",
+REACH = ["inj:prefix", "inj:msgid", "inj:short", "inj:lenrewrite", "inj:lenbump", "inj:cell", "inj:keyed_cell", "inj:quit", "inj:relay_half", "inj:late_from_dropped",
          "listener_removed_itself_during_delivery", "relay_half_expired", "inj:random", "reached_handler",
          "direct_decode", "direct_decode_accepted", "codec_classes", "statistics_endpoint_listening", "endpoint_wrapped_in_tunnel_endpoint",
          "cell_branch_circuit", "cell_branch_exit", "decode_exact_end", "snapshot_truncations"]
@@ -325,9 +325,10 @@ def execute(case: dict) -> dict:  # noqa: C901, PLR0915
 
         peers_addr = [n.address for n in nodes if n is not victim]
 
-        def inject(kind: str, data: bytes) -> None:
-            src = rng.choice(peers_addr) if rng.random() < 0.7 else (f"7.7.{rng.randrange(256)}.{rng.randrange(1, 255)}",
-                                                                     rng.randrange(1024, 65535))
+        def inject(kind: str, data: bytes, src=None) -> None:  # noqa: ANN001
+            if src is None:
+                src = rng.choice(peers_addr) if rng.random() < 0.7 else (f"7.7.{rng.randrange(256)}.{rng.randrange(1, 255)}",
+                                                                         rng.randrange(1024, 65535))
             rec = {"kind": kind, "data": data}
             injected.append(rec)
             _PENDING[data] = rec
@@ -412,6 +413,33 @@ def execute(case: dict) -> dict:  # noqa: C901, PLR0915
             if what == "final":
                 # I. a listener in front of the witnesses removes itself while the datagram is being delivered
                 inject("quit", quit_marker)
+                # K. late datagrams from the addresses of a peer that roamed and was then dropped: the peer was heard at OLD, then
+                # (signed) at NEW, then the churn / a walker time-out dropped it; delayed datagrams from OLD and NEW still arrive
+                from ipv8.peer import Peer
+                from ipv8.messaging.interfaces.udp.endpoint import UDPv4Address
+                for n_ov, ov in enumerate(ovs):
+                    nw = getattr(ov, "network", None)
+                    vps = sorted(nw.verified_peers, key=lambda p: p.public_key.key_to_bin()) if nw is not None else []
+                    if not vps:
+                        continue
+                    p0 = vps[0]
+                    old_a = p0.address
+                    new_a = UDPv4Address(f"7.8.{n_ov}.{1 + rng.randrange(250)}", 1024 + rng.randrange(60000))
+                    how = rng.choice(["remove_peer", "remove_by_address", "remove_peer_no_roam"])
+                    victim.call(nw.get_verified_by_address, old_a)
+                    if how != "remove_peer_no_roam":
+                        victim.call(nw.add_verified_peer, Peer(p0.public_key.key_to_bin(), new_a))   # a signed message from NEW
+                        victim.call(nw.get_verified_by_address, new_a)
+                    if how == "remove_by_address":
+                        victim.call(nw.remove_by_address, p0.address)
+                    else:
+                        victim.call(nw.remove_peer, p0)
+                    world.probe("roamed_peer_dropped:" + how)
+                    body = next((d for (pfx, _m, _l), d in captured.items() if pfx == ov.get_prefix()), ov.get_prefix() + b"\xf6" + b"\x00" * 30)
+                    for a in (old_a, new_a):
+                        inject("late_from_dropped", body[:23] + rng.randbytes(8) + body[31:], src=tuple(a))
+                        inject("late_from_dropped", ov.get_prefix(), src=tuple(a))
+                        inject("late_from_dropped", foreign_prefix + b"\x07late", src=tuple(a))
             if i >= 2 and "relay_half" not in done_types:
                 # J. one half of a relay pair has expired on its own (the sweep removes each half by its own clock); cells for the
                 # surviving half keep arriving
